@@ -94,6 +94,11 @@ func main() {
 			}
 		}
 		fmt.Println("obligations", len(s.Obs), "bad", n, s.Analysed, time.Since(t0))
+	case "l0":
+		rules.L0(rc, nil)
+		for _, o := range s.Obs {
+			fmt.Println(o.V, o.Rule, o.Key, o.Detail)
+		}
 	case "k8":
 		rules.K8(rc, 0)
 		for _, o := range s.Obs {
